@@ -3,6 +3,7 @@ import OmbottModel.Model.Wsgi
 import OmbottModel.Model.Router
 import OmbottModel.Model.Headers
 import OmbottModel.Model.ErrorPage
+import OmbottModel.Model.BodyAccess
 /-!
 The spine: ONE model of `Ombott.__call__` composed from the models the properties already have.
 
@@ -240,6 +241,18 @@ failing application error handler), when routing itself ends the request -/
 def errorPageView (cfg : AppConfig) (R : Router.Router) (q : Req) : Option ErrorPage.Resp :=
   (routedOutcome (resolved cfg R q)).map fun oc =>
     ErrorPage.serve cfg.pr Gen.errorTemplateLines false (errorPageReq q) oc false ([], [])
+
+/-- a callback that reads one of the body accessors of `Model/BodyAccess` (`request.forms`, `.files`,
+`.POST`, `.json`, `.body`) and lets whatever it raises through, as a handler program of
+`Model/Wsgi`: a mapped request error is the raised `HTTPError` of `errors_map` (`BaseRequest._raise`),
+any other exception is a crash.  `Model/BodyAccess` keeps only the status of the mapped error
+(`Err.http st`), so its body text is a parameter here (`bodyOf`). -/
+def accessHandler (bodyOf : Nat → Str) (x : Except Forms.Exc BodyAccess.Val) : Wsgi.Handler :=
+  { effs := [],
+    res := match x with
+      | .ok _ => .returns (.text "ok".toList)
+      | .error (.py (.http st)) => .raisesResp (Wsgi.mkError st (bodyOf st))
+      | .error _ => .raises }
 
 /-- body bytes of a `Wsgi` result -/
 def bodyBytes : List Wsgi.BodyItem → Bytes
